@@ -233,7 +233,8 @@ def extract_chain(root):
                    "bool suppressed = false; if (mSuppressions.nomsg.isSuppressed(errorMessage, mUseGlobalSuppressions)) {",
                    "if (mSettings.safety && ErrorLogger::isCriticalErrorId(msg.id)) { mExitCode = 1; if (mSuppressions.nomsg.isSuppressedExplicitly(errorMessage, mUseGlobalSuppressions)) {",
                    "temp.severity = Severity::internal; mErrorLogger.reportErr(temp); } else { mErrorLogger.reportErr(msg); } } suppressed = true;",
-                   "if (errmsg.empty()) return; if (!mSettings.emitDuplicates && !(suppressed ? mSuppressedErrorList : mErrorList).emplace(std::move(errmsg)).second) return;",
+                   "if (errmsg.empty()) return; const bool suppressedLater = !suppressed && !mUseGlobalSuppressions && mSuppressions.nomsg.isSuppressed(errorMessage); "
+                   "if (!mSettings.emitDuplicates && !((suppressed || suppressedLater) ? mSuppressedErrorList : mErrorList).emplace(std::move(errmsg)).second) return;",
                    "if (suppressed) return; if (!mSuppressions.nofail.isSuppressed(errorMessage) && !mSuppressions.nomsg.isSuppressed(errorMessage)) { mExitCode = 1; }"]:
             need(b, st, "CppCheckLogger::reportErr")
         # after `suppressed = true;` the block closes, optionally after showing the finding to all suppressions (C24 F24c repair:
@@ -258,8 +259,8 @@ def extract_chain(root):
 
     def t_checkinternal():
         b = function_body(cc, "unsigned int CppCheck::checkInternal(const FileWithDetails& file, const std::string &cfgname, const CreateTokenListFn& createTokenList)")
-        need(b, "mLogger->resetExitCode(); if (Settings::terminated()) return mLogger->exitcode();", "checkInternal")
-        need(b, "mLogger->clear();", "checkInternal")
+        need(b, "mLogger->resetExitCode(); mLogger->clear(); if (Settings::terminated()) return mLogger->exitcode();", "checkInternal")
+        need(b, "mLogger->clear();", "checkInternal", 2)
         if not b.endswith("return mLogger->exitcode(); }"):
             raise Unrecognised("checkInternal does not end in `return mLogger->exitcode();`")
         pre = "if (mSettings.checkConfiguration) { for (const std::string &config : configurations) (void)preprocessor.getcode(config, files, false); " \
